@@ -863,9 +863,18 @@ def check_scriptsig_encoding(chk, F, rid="R17.14"):
             # push_slice of nothing is the byte 0x00, i.e. OP_0
             return ("int", 0) if tok == ("slice", ()) else tok
         SIG = tuple([0x30] + [7] * 70)
-        elems = [(), (1,), (2,), (16,), (0x81,), (17,), (0x80,), (0,), (1, 0), (0xff, 0x7f), (5, 0, 0, 0, 0), SIG, tuple([9] * 33)]
+        elems = [(), (1,), (2,), (16,), (0x81,), (17,), (0x80,), (0,), (1, 0), (0xff, 0x7f), (5, 0, 0, 0, 0), SIG, tuple([9] * 33),
+                 tuple([0x30] + [7] * 71), tuple([0x30] + [7] * 72), tuple([9] * 65)]
         for e in elems:
-            r = m.call_path(wts, [PyVec([PyVec(list(e)), PyVec(list(SIG))])])
+            try:
+                r = m.call_path(wts, [PyVec([PyVec(list(e)), PyVec(list(SIG))])])
+            except Panic as ex:
+                # a DER signature with its sighash byte is up to 73 bytes long
+                n += 1
+                chk.obligation(rid, False, "witness_to_scriptsig|len%d" % len(e),
+                               "an element of %d bytes (a signature may be 73 bytes with its sighash byte) makes witness_to_scriptsig panic: %s"
+                               % (len(e), str(ex)[:120]), F.fns[wts]["span"])
+                continue
             n += 1
             toks = deref(r)[1]
             want = minimal(e)
